@@ -179,7 +179,6 @@ func (d *fakeDialer) DialStream(ctx context.Context, addr conn.Addr, payload []b
 	}
 	pl, pr := netio.NewPipe()
 	go func() {
-		defer finish()
 		defer pr.Close()
 		if o.kind != "silent" {
 			time.Sleep(o.lat)
@@ -202,7 +201,19 @@ func (d *fakeDialer) DialStream(ctx context.Context, addr conn.Addr, payload []b
 			}
 		}
 	}()
-	return pl, nil
+	return &probeConn{PipeConn: pl, finish: finish}, nil
+}
+
+// probeConn tells the world when the prober hangs up (before the worker takes its next job).
+type probeConn struct {
+	*netio.PipeConn
+	once   sync.Once
+	finish func()
+}
+
+func (c *probeConn) Close() error {
+	c.once.Do(c.finish)
+	return c.PipeConn.Close()
 }
 
 // UDP member.  A scripted failure is a NewSession error; a success opens a real loopback socket
